@@ -6,7 +6,7 @@
     instance. [stuck st cfg d] = "the bundle every load picks has a key that does not match its
     certificate" (Model.v). *)
 From Coq Require Import List NArith ZArith Bool.
-From CM Require Import Bundle.Model Bundle.Proofs Bundle.Faults Bundle.Check Gen.Consts.
+From CM Require Import Bundle.Model Bundle.Proofs Bundle.Faults Bundle.RecoverRev Bundle.Check Bundle.Sound Gen.Consts.
 Import ListNotations.
 Open Scope N_scope.
 
@@ -140,6 +140,21 @@ Proof.
 Qed.
 Print Assumptions C07_stuck_only_by_torn_key_store_any_revocation.
 
+(** recoverable with revocations pending (no hypothesis on [k_ocsp]), one issuer: the fresh instance
+    replaces the revoked certificate (after key compromise: with a new key, the old one quarantined) or
+    renews / serves as before, and ends up serving a non-due certificate for the subject with its
+    matching key - outside the stuck class. Missing for the full statement: the stuck class (refuted
+    below) and several issuers, where the replacement after key compromise is C06's known finding. *)
+Theorem C07_recoverable_with_revocations_partial : forall pl cfg sp orc h orc_r w0,
+  reach6 cfg sp (w_core w0) -> canonical sp -> n_iss cfg = 1%nat -> is_op7 h = true ->
+  let w1 := snd (run_hop pl cfg sp orc h w0) in
+  stuck (w_st w1) cfg (s_save sp) = false ->
+  all_up cfg orc_r (w_st w1) (s_save sp) ->
+  exists mc c', evals (manage no_faults cfg sp orc_r) (w_core (break_lock w1)) (Ok mc) c' /\
+                served_ok cfg sp mc c'.
+Proof. exact recoverable_after_fault_rev. Qed.
+Print Assumptions C07_recoverable_with_revocations_partial.
+
 (** the refuted class is permanent: on a stuck storage every later manage fails with the key
     mismatch and obtain is a no-op, whatever the issuers would answer; nothing changes *)
 Theorem C07_stuck_is_permanent : forall cfg sp orc c,
@@ -152,6 +167,27 @@ Proof.
   - generalize (evals_obtain cfg sp orc c T HL). rewrite HOb. auto.
 Qed.
 Print Assumptions C07_stuck_is_permanent.
+
+(** * the check's monitor and the theorems say the same thing
+    [Check.spec7_core] is the recovery clause that [check_line7] evaluates on the IMPLEMENTATION's
+    observation. Evaluated on the model's own observation of the recovery ([Check.recover]) it is true
+    under exactly the hypotheses of [C07_recoverable_partial] ... *)
+Theorem C07_monitor_sound : forall pl cfg sp orc h orc_r w0,
+  reach6 cfg sp (w_core w0) -> k_ocsp (w_core w0) = [] -> canonical sp -> (1 <= n_iss cfg)%nat ->
+  is_op7 h = true ->
+  let w1 := snd (run_hop pl cfg sp orc h w0) in
+  stuck (w_st w1) cfg (s_save sp) = false ->
+  all_up cfg orc_r (w_st w1) (s_save sp) ->
+  spec7_core cfg sp (fst (recover cfg sp orc_r w1)) (negb (stuck (w_st w1) cfg (s_load sp))) = true.
+Proof. exact monitor_sound_core. Qed.
+Print Assumptions C07_monitor_sound.
+
+(** ... and false on every stuck storage, whatever the issuers answer and whatever the twin did *)
+Theorem C07_monitor_rejects_stuck : forall cfg sp orc w tw,
+  typed (w_st w) -> canonical sp -> stuck (w_st w) cfg (s_save sp) = true ->
+  spec7_core cfg sp (fst (recover cfg sp orc w)) tw = false.
+Proof. exact monitor_rejects_stuck. Qed.
+Print Assumptions C07_monitor_rejects_stuck.
 
 (** the full statement is false: renewal with a fresh key to the same issuer, process death right
     after Storage call 11 (the Store of the new .key): the bundle is "complete" but the key does not
@@ -184,7 +220,7 @@ Proof.
   intros orc_r. apply C07_stuck_is_permanent.
   - assert (E : eff7 w7_cfg w7_sp (w_core w7_w0) (w_core w1)) by (unfold w1; apply faulted_effect; vm_compute; reflexivity).
     assert (T0 : typed (k_st (w_core w7_w0))) by (apply (i_typed _ _ _ (reach6_inv _ _ _ w7_reach))).
-    unfold break_lock. cbn [w_core k_st set_locked].
+    apply typed_break_lock.
     destruct E as [(E & _)|(_ & _ & _ & i & k & x & _ & _ & _ & HT)].
     + rewrite E. exact T0.
     + eapply torn_typed; eauto.
@@ -268,3 +304,13 @@ Example C07_keycompromise_with_reuse_gets_stuck :
   k_ocsp (w_core w7k_w0) = [(0, true)] /\ fst r = Dead /\ stuck (w_st (snd r)) w7r_cfg 0 = true /\
   dir_key (w_st (snd r)) 0 0 = Some 1 /\ dir_comp (w_st (snd r)) 0 0 = Some 0.
 Proof. vm_compute. repeat split. Qed.
+
+(** hypotheses of [C07_recoverable_with_revocations_partial] on a non-trivial state: the replacement after
+    key compromise (key reuse on) whose Store of the new .crt (call 17) fails: rolled back, not stuck, and the
+    fresh instance - which still sees the revocation - replaces the certificate with yet another new key *)
+Example C07_keycompromise_single_error_recovers :
+  let r := run_hop (single_error 17) w7r_cfg w7_sp (Oracle [Some (20%Z, VFresh)] []) HManage w7k_w0 in
+  stuck (w_st (snd r)) w7r_cfg 0 = false /\
+  exists mc w2, manage no_faults w7r_cfg w7_sp (Oracle [Some (30%Z, VFresh)] []) (break_lock (snd r)) = (Ok mc, w2) /\
+                c_ser (m_c mc) = 2 /\ m_k mc <> 0.
+Proof. vm_compute. split; [reflexivity|]. eexists. eexists. split; [reflexivity|]. split; [reflexivity | discriminate]. Qed.
